@@ -138,11 +138,17 @@ def c_distinct_inconsistent(prog, r):
 
 def c_recursion_no_base(prog, r):
   text = G.p_program(prog)
-  if r.random() < 0.5:
-    text += 'Rz9(x) :- Rz9(x);\n'
-  else:
-    text += 'Rz9(x) :- Ry9(x);\nRy9(x) :- Rz9(x), x > 0;\n'
-  return dict(text=text, pred='Rz9', offender='Rz9', expect=None, model=None)
+  text += r.choice(['Rz9(x) :- Rz9(x);\n', 'Rz9(x) :- Ry9(x);\nRy9(x) :- Rz9(x), x > 0;\n',
+                    'Rz9(x) distinct :- Rz9(y), x == y + 1, x < 5;\n'])
+  # asked for directly, or through a consumer that has other rules / alternatives, a negation or an aggregate
+  consumer, pred = r.choice([
+      ('', 'Rz9'), ('', 'Rz9'),
+      ('Qz9(x) :- x in [10, 20];\nQz9(x) :- Rz9(x);\n', 'Qz9'),
+      ('Qz9(x) :- x in [1, 2] | Rz9(x);\n', 'Qz9'),
+      ('Qz9(x) :- x in [1, 2], ~Rz9(x);\n', 'Qz9'),
+      ('Qz9() += 1 :- Rz9(x);\n', 'Qz9'),
+      ('Qz9(x) :- x in [1, 2], c == Sum{y :- Rz9(y)}, x > c;\n', 'Qz9')])
+  return dict(text=text + consumer, pred=pred, offender='z9', expect=None, model=None)
 
 
 def c_functor_bad_argument(prog, r):
